@@ -320,6 +320,21 @@ class Facts(Walker):
                 elif isinstance(op, ast.GtE) and not truth:
                     self.add(st, "NZ", vn)
             return
+        # bare truthiness of a count:  if x.size: / if len(x): / if np.any(m): / if m.any():
+        if isinstance(test, ast.Attribute) and test.attr == "size" and truth:
+            self.add(st, "NZ", self.vn(test, st))
+            return
+        if isinstance(test, ast.Call) and isinstance(test.func, ast.Name) and test.func.id == "len" and len(test.args) == 1 and truth:
+            self.add(st, "NZ", self.vn(test, st))
+            return
+        if isinstance(test, ast.Call) and truth:
+            inner_ = None
+            if (self.np_name(test.func) or "") == "any" and len(test.args) == 1 and not test.keywords:
+                inner_ = test.args[0]
+            elif isinstance(test.func, ast.Attribute) and test.func.attr == "any" and not test.args and not test.keywords:
+                inner_ = test.func.value
+            if inner_ is not None and not isinstance(inner_, (ast.Compare, ast.UnaryOp)):
+                self.add(st, "ANY", self.vn(inner_, st))
         if isinstance(test, ast.Call):
             npn = self.np_name(test.func)
             if npn in ("isclose", "allclose") and len(test.args) >= 2:
@@ -747,6 +762,19 @@ class Facts(Walker):
             first = vals[0]
             info["unit"] = self.is_unit(first, st)
             info["complex"] = (self.vn(first, st) in st["C"]) or self.is_complex(first, st)
+            # `return a if c else b`: the leaves of the conditional expression, each with its own facts
+            leaves, todo = [], [first]
+            while todo:
+                e = todo.pop()
+                if isinstance(e, ast.IfExp):
+                    todo.extend([e.orelse, e.body])
+                else:
+                    leaves.append(e)
+            if len(leaves) > 1:
+                info["arms"] = [{"expr": e, "text": ast.unparse(e), "unit": self.is_unit(e, st),
+                                 "complex": (self.vn(e, st) in st["C"]) or self.is_complex(e, st)} for e in leaves]
+                info["unit"] = info["unit"] or all(a["unit"] for a in info["arms"])
+                info["complex"] = info["complex"] or any(a["complex"] for a in info["arms"])
         else:
             info["unit"] = False
             info["complex"] = False
